@@ -45,11 +45,16 @@ RULE = ('corpus first, then random cases over ops {collect_charge (scalar/vector
         'collect_charge_bayer (patterns 1x1..4x4 of random R/G/B content, oversample 1..5, flatten on/off, images that are '
         'and are not multiples of pattern*oversample), adc (four gain forms, orders 1..4, negative/saturating inputs, '
         'warn on/off, dtypes, capacity 0 and negative, broadcast and mismatching gain shapes, rank-4 gains), format_bayer_string, '
-        'sequences of 2..4 Bayer calls on one frame shape with varying oversample/pattern/flatten}; thorough adds all '
+        'sequences of 2..4 Bayer calls on one frame shape with varying oversample/pattern/flatten, histories of 2..4 '
+        'collect_charge/collect_charge_bayer calls sharing ONE set of efficiency objects (Spectrum in nm/um/angstrom/m, cube '
+        'wavelengths on the spectrum end points in its own unit; spectrum compared exactly before/after every call), histories '
+        'of 2..4 adc calls sharing one frame and one gain object}; frames as float64/float32/int64/int32/uint16/uint8, '
+        'array_likes as ndarray/list/tuple, scalars as float/int/0-d array, dtype as str/type/np.dtype, capacity as Python or '
+        'numpy scalar, electron counts whose powers a sloppy pow() rounds wrongly; thorough adds all '
         '81 2x2 patterns x oversample 1..5; non-trivial = more than one wavelength / pattern or oversample > 1 / '
         'non-scalar gain or saturation or negative input; distinct by case hash')
 
-UNITS = ('nm', 'um', 'angstrom')
+UNITS = ('nm', 'um', 'angstrom', 'm')
 CODES = {'R': 0, 'G': 1, 'B': 2}
 
 
@@ -60,7 +65,7 @@ F = Fraction
 def to_unit(w_nm, unit):
     """a wavelength given in nm (int or Fraction) as a float in the unit"""
     w = F(w_nm)
-    return float({'nm': w, 'um': w / 1000, 'angstrom': w * 10}[unit])
+    return float({'nm': w, 'um': w / 1000, 'angstrom': w * 10, 'm': w / 10 ** 9}[unit])
 
 
 def spectrum_exact(qe, w_nm):
@@ -84,12 +89,30 @@ def qe_vector(qe, wave_nm):
     return [spectrum_exact(qe, w) for w in wave_nm]
 
 
+def as_form(vals, form):
+    """a documented argument form of an array_like: ndarray (default), nested list, nested tuple"""
+    if form == 'list':
+        return vals
+    if form == 'tuple':
+        return json_map_t(vals)
+    return np.array(vals, dtype=float)
+
+
+def json_map_t(x):
+    return tuple(json_map_t(v) for v in x) if isinstance(x, list) else x
+
+
 def qe_impl(qe):
     lentil = C.import_lentil()
     if qe['kind'] == 'scalar':
-        return float(F(qe['v']))
+        v = F(qe['v'])
+        if qe.get('form') == '0d':
+            return np.array(float(v))
+        if qe.get('form') == 'int' and v.denominator == 1:
+            return int(v)
+        return float(v)
     if qe['kind'] == 'vec':
-        return np.array([float(F(x)) for x in qe['v']], dtype=float)
+        return as_form([float(F(x)) for x in qe['v']], qe.get('form'))
     u = qe['unit']
     return lentil.radiometry.Spectrum(np.array([to_unit(x, u) for x in qe['grid']]),
                                       np.array([float(F(x)) for x in qe['vals']]), waveunit=u)
@@ -119,7 +142,15 @@ def img_shape(img):
 
 def np_img(img, dtype=float):
     return np.array([[[float(F(v)) for v in row] for row in sl] for sl in img] if len(img_shape(img)) == 3
-                    else [[float(F(v)) for v in row] for row in img], dtype=dtype)
+                    else [[float(F(v)) for v in row] for row in img], dtype=np.dtype(dtype or 'float64'))
+
+
+def mk_wave(c):
+    return as_form([to_unit(w, c['unit']) for w in c['wave']], c.get('wave_form'))
+
+
+def mk_os(c):
+    return np.int64(c['os']) if c.get('os_form') == 'np' else c['os']
 
 
 def pattern_codes(s):
@@ -128,6 +159,8 @@ def pattern_codes(s):
 
 # ------------------------------------------------------------------ generation
 DY = [F(k, 8) for k in range(0, 9)]
+# photon cubes hold small non-negative integers: exact in every one of these types
+IMG_DTYPES = ['float64', 'float64', 'float64', 'int64', 'int32', 'uint16', 'uint8', 'float32']
 
 
 def rnd_dyadic(rng, lo=0, hi=8, den=8):
@@ -141,9 +174,9 @@ def rnd_wave(rng, n):
 def rnd_qe(rng, wave_nm, kinds=('scalar', 'vec', 'spectrum')):
     k = rng.choice(kinds)
     if k == 'scalar':
-        return {'kind': 'scalar', 'v': str(rng.choice(DY))}
+        return {'kind': 'scalar', 'v': str(rng.choice(DY)), 'form': rng.choice(['float', 'float', '0d', 'int'])}
     if k == 'vec':
-        return {'kind': 'vec', 'v': [str(rng.choice(DY)) for _ in wave_nm]}
+        return {'kind': 'vec', 'v': [str(rng.choice(DY)) for _ in wave_nm], 'form': rng.choice(['ndarray', 'ndarray', 'list', 'tuple'])}
     grid = sorted(set(rng.sample(range(350, 951, 50), rng.randint(3, 8)) + [300, 1000]))
     return {'kind': 'spectrum', 'unit': rng.choice(UNITS), 'grid': grid, 'vals': [str(rng.choice(DY)) for _ in grid]}
 
@@ -171,7 +204,8 @@ def gen_collect(rng):
         img = rnd_cube(rng, 1, r, c)[0]          # a bare 2-d frame
     else:
         img = rnd_cube(rng, k, r, c)
-    case = {'op': 'collect', 'img': img, 'wave': wave, 'unit': rng.choice(UNITS), 'qe': rnd_qe(rng, wave)}
+    case = {'op': 'collect', 'img': img, 'wave': wave, 'unit': rng.choice(UNITS), 'qe': rnd_qe(rng, wave),
+            'img_dtype': rng.choice(IMG_DTYPES), 'wave_form': rng.choice(['ndarray', 'ndarray', 'list', 'tuple'])}
     u = rng.random()
     if u < 0.05:      # wavelength count differs from the number of slices (broadcast or error: model decides)
         case['wave'] = rnd_wave(rng, rng.choice([x for x in (1, 2, 3, 4, 5) if x != k]))
@@ -190,7 +224,9 @@ def gen_bayer(rng, pk=None, os_=None, pat=None):
     k = rng.randint(1, 4)
     wave = rnd_wave(rng, k)
     case = {'op': 'bayer', 'wave': wave, 'unit': rng.choice(UNITS), 'os': os_,
-            'pattern': pat or rnd_pattern(rng, pk), 'flatten': rng.random() < 0.65}
+            'pattern': pat or rnd_pattern(rng, pk), 'flatten': rng.random() < 0.65,
+            'img_dtype': rng.choice(IMG_DTYPES), 'wave_form': rng.choice(['ndarray', 'ndarray', 'list', 'tuple']),
+            'os_form': rng.choice(['int', 'int', 'np'])}
     t = rng.random()
     if t < 0.06:          # image size that is not a multiple of pattern*oversample (outside the property: model decides)
         r, c = max(1, r + rng.choice([-1, 1, 2])), max(1, c + rng.choice([-1, 0, 1]))
@@ -242,7 +278,105 @@ def gen_bayer_seq(rng):
 
 
 def sub_cases(c):
-    return [dict(call, op='bayer', img=c['img'], wave=c['wave'], unit=c['unit']) for call in c['calls']]
+    """the calls of a history as stand-alone cases (what each call must return had it been made first)"""
+    if c['op'] == 'bayer_seq':
+        return [dict(call, op='bayer', img=c['img'], wave=c['wave'], unit=c['unit']) for call in c['calls']]
+    if c['op'] == 'adc_seq':
+        return [dict(call, op='adc', img=c['img'], gain=c['gain'], int_img=c['int_img'], img_dtype=c['img_dtype'])
+                for call in c['calls']]
+    out = []
+    for call in c['calls']:
+        sc = {'img': c['img'], 'img_dtype': c.get('img_dtype'), 'wave': call['wave'], 'unit': call['unit']}
+        if call['fn'] == 'collect':
+            sc.update(op='collect', qe=c['pool'][call['qe']])
+        else:
+            sc.update(op='bayer', qr=c['pool'][call['qr']], qg=c['pool'][call['qg']], qb=c['pool'][call['qb']],
+                      pattern=call['pattern'], os=call['os'], flatten=call['flatten'])
+        out.append(sc)
+    return out
+
+
+SEQ_OPS = ('bayer_seq', 'qe_seq', 'adc_seq')
+# end points whose unit round trip (x*1e-3*1e3, x*10*0.1, ...) is not exact in floating point, and harmless ones
+END_LO = [410, 470, 350, 430, 290, 380]
+END_HI = [690, 700, 570, 950, 810, 1010]
+
+
+def gen_qe_seq(rng):
+    """ONE set of efficiency objects (at least one Spectrum) used in 2..4 collect_charge / collect_charge_bayer calls in
+    different wavelength units; in a call made in a spectrum's own unit the cube wavelengths sit exactly on the
+    spectrum's end points.  (In a foreign unit the end points are avoided: the conversion of the grid is inexact and the
+    end point may legitimately fall outside the converted range - sampling is C13/C14's business.)"""
+    lo, hi = rng.choice(END_LO), rng.choice(END_HI)
+    nw = rng.randint(1, 3)
+    pool = []
+    for _ in range(rng.randint(1, 3)):
+        inner = sorted(rng.sample(range(lo + 10, hi, 10), rng.randint(1, 5)))
+        grid = [lo] + inner + [hi]
+        pool.append({'kind': 'spectrum', 'unit': rng.choice(UNITS), 'grid': grid, 'vals': [str(rng.choice(DY)) for _ in grid]})
+    if rng.random() < 0.4:
+        pool.append(rnd_qe(rng, [0] * nw, ('scalar', 'vec')))
+    native = pool[0]['unit']
+    r, c = rng.choice([(4, 4), (6, 6), (4, 8), (2, 2), (3, 5)])
+    n = rng.randint(2, 4)
+    units = [rng.choice(UNITS) for _ in range(n)]
+    if rng.random() < 0.75:      # a foreign unit first, the spectrum's own unit later
+        units[0] = rng.choice([u for u in UNITS if u != native])
+        units[-1] = native
+    calls = []
+    for u in units:
+        fn = 'bayer' if (r % 2 == 0 and c % 2 == 0 and rng.random() < 0.35) else 'collect'
+        idx = [rng.randrange(len(pool)) for _ in range(3)]
+        if rng.random() < 0.7:
+            idx[0] = 0
+        used = idx if fn == 'bayer' else idx[:1]
+        spectra = [pool[k] for k in used if pool[k]['kind'] == 'spectrum']
+        ends_ok = all(q['unit'] == u for q in spectra)
+        nodes = sorted({g for q in pool if q['kind'] == 'spectrum' for g in q['grid'][1:-1]})
+        cand = sorted(set(nodes + [(a + b) // 2 for a, b in zip([lo] + nodes, nodes + [hi]) if (a + b) % 2 == 0]) - {lo, hi})
+        wave = set()
+        if ends_ok and spectra:
+            if rng.random() < 0.85:
+                wave.add(lo)
+            if rng.random() < 0.5:
+                wave.add(hi)
+        wave = sorted(wave)[:nw]
+        rest = [w for w in cand if w not in wave]
+        wave = sorted(wave + rng.sample(rest, nw - len(wave)))
+        call = {'fn': fn, 'unit': u, 'wave': wave}
+        if fn == 'collect':
+            call['qe'] = idx[0]
+        else:
+            k = rng.choice([1, 2])
+            call.update(qr=idx[0], qg=idx[1], qb=idx[2], pattern=rnd_pattern(rng, k), os=rng.choice([1, 2 // k]) or 1,
+                        flatten=rng.random() < 0.6)
+        calls.append(call)
+    return {'op': 'qe_seq', 'img': rnd_cube(rng, nw, r, c, hi=12), 'img_dtype': rng.choice(IMG_DTYPES), 'pool': pool,
+            'calls': calls}
+
+
+def gen_adc_seq(rng):
+    """ONE frame object and ONE gain object used in 2..4 adc calls that differ in capacity / warning / output type"""
+    base = gen_adc(rng)
+    while base['gain']['ndim'] >= 4 or adc_expected(base) is None:
+        base = gen_adc(rng)
+    calls = []
+    for _ in range(rng.randint(2, 4)):
+        c2 = dict(base)
+        hi = 30
+        s = rng.random()
+        c2['sat'] = None if s < 0.3 else ('0' if s < 0.36 else (str(-rng.randint(1, 5)) if s < 0.4 else str(rng.randint(1, hi))))
+        c2['warn'] = rng.random() < 0.6
+        c2['dtype'] = None
+        if rng.random() < 0.6:
+            exp = adc_expected(c2)
+            mx = max([v for row in exp for v in row] + [0])
+            cands = [d for d, lim in (('uint8', 255), ('uint16', 65535), ('int32', 2 ** 31 - 1), ('uint32', 2 ** 32 - 1),
+                                      ('uint64', 2 ** 62), ('float32', 2 ** 24)) if mx <= lim]
+            c2['dtype'] = rng.choice(cands) if cands else None
+        calls.append({k: c2[k] for k in ('sat', 'sat_form', 'warn', 'dtype', 'dtype_form')})
+    return {'op': 'adc_seq', 'img': base['img'], 'int_img': base['int_img'], 'img_dtype': base['img_dtype'],
+            'gain': base['gain'], 'calls': calls}
 
 
 def rnd_electrons(rng, r, c, lo, hi, frac=True):
@@ -250,31 +384,47 @@ def rnd_electrons(rng, r, c, lo, hi, frac=True):
     return [[str(F(rng.randint(lo * den, hi * den), den)) for _ in range(c)] for _ in range(r)]
 
 
-def rnd_coef(rng, nonneg):
+def rnd_coef(rng, nonneg, whole=False):
     lo = 0 if nonneg else -16
+    if whole:
+        return str(rng.choice([0, 0, 1, 1, 2, 3, 8, 16]))
     return str(F(rng.randint(lo, 24), 8))
+
+
+HARD_POW = ['13', '26', '52', '13/2', '79/2', '13/4', '79/4', '77/2', '77/4']
 
 
 def gen_adc(rng):
     r, c = rng.randint(1, 6), rng.randint(1, 6)
     lo = rng.choice([0, 0, -12, -30])
     hi = rng.choice([12, 30, 60])
-    int_img = rng.random() < 0.15
+    # frame types: float64, or integer frames (whole electrons), or float32 (|e| <= 12 in quarters: powers up to the
+    # fourth stay exact in 24 bits)
+    img_dtype = rng.choice(['float64'] * 6 + ['int64', 'int32', 'float32', 'float32'])
+    int_img = img_dtype.startswith('int')
+    if img_dtype == 'float32':
+        lo, hi = max(lo, -12), 12
     img = rnd_electrons(rng, r, c, lo, hi, frac=not int_img)
     nonneg = rng.random() < 0.5
     form = rng.choice([0, 1, 1, 2, 3, 3])
     order = rng.randint(1, 4)
+    hard = img_dtype == 'float64' and rng.random() < 0.2
+    if hard:      # electron counts whose 3rd/4th power a not correctly rounded pow() gets wrong in the last bit; whole-number
+        hi = max(hi, 52)    # coefficients put the polynomial value exactly on an integer, where floor() shows that bit
+        for _ in range(rng.randint(1, 4)):
+            img[rng.randrange(r)][rng.randrange(c)] = rng.choice(HARD_POW)
+        form, order = rng.choice([1, 1, 3]), rng.choice([3, 4, 4])
     if hi > 30 and order > 3:
         order = 3
     if form == 0:
         gain = {'ndim': 0, 'v': rnd_coef(rng, nonneg)}
     elif form == 1:
-        gain = {'ndim': 1, 'v': [rnd_coef(rng, nonneg) for _ in range(order)]}
+        gain = {'ndim': 1, 'v': [rnd_coef(rng, nonneg, hard) for _ in range(order)]}
     elif form == 2:
         gain = {'ndim': 2, 'v': [[rnd_coef(rng, nonneg) for _ in range(c)] for _ in range(r)]}
     else:
-        gain = {'ndim': 3, 'v': [[[rnd_coef(rng, nonneg) for _ in range(c)] for _ in range(r)] for _ in range(order)]}
-    t = rng.random()
+        gain = {'ndim': 3, 'v': [[[rnd_coef(rng, nonneg, hard) for _ in range(c)] for _ in range(r)] for _ in range(order)]}
+    t = rng.random() if not hard else 1.0
     if t < 0.04:
         gain = {'ndim': 4, 'v': [[[['1']]]]}
     elif t < 0.10 and form in (2, 3):       # pixel axes that do not match the frame (broadcast or ValueError)
@@ -294,7 +444,13 @@ def gen_adc(rng):
         sat = str(-rng.randint(1, 5))
     else:
         sat = str(F(rng.randint(1, 2 * hi), rng.choice([1, 1, 2])))
-    case = {'op': 'adc', 'img': img, 'int_img': int_img, 'gain': gain, 'sat': sat, 'warn': rng.random() < 0.6, 'dtype': None}
+    if img_dtype == 'float32' and sat is not None and F(sat).denominator > 4:
+        sat = str(F(sat).numerator)
+    gain['form'] = rng.choice(['ndarray', 'ndarray', 'list', 'tuple']) if gain['ndim'] in (1, 2, 3) else \
+        rng.choice(['float', 'float', '0d', 'int'])
+    case = {'op': 'adc', 'img': img, 'int_img': int_img, 'img_dtype': img_dtype, 'gain': gain, 'sat': sat,
+            'sat_form': rng.choice(['py', 'py', 'np']), 'warn': rng.random() < 0.6, 'dtype': None,
+            'dtype_form': rng.choice(['dtype', 'str', 'type'])}
     if rng.random() < 0.5:
         exp = adc_expected(case)
         if exp is not None:
@@ -331,6 +487,10 @@ def generate(rng, tier):
             yield gen_fmt(rng)
     for _ in range(50 if tier == 'quick' else 500):
         yield gen_bayer_seq(rng)
+    for _ in range(90 if tier == 'quick' else 900):
+        yield gen_qe_seq(rng)
+    for _ in range(40 if tier == 'quick' else 400):
+        yield gen_adc_seq(rng)
     if tier == 'thorough':
         for pat in itertools.product('RGB', repeat=4):
             for os_ in range(1, 6):
@@ -344,8 +504,8 @@ def classify(c):
         return f'bayer/k{int(math.isqrt(len(c["pattern"])))}/os{c["os"]}'
     if c['op'] == 'adc':
         return f'adc/gain{c["gain"]["ndim"]}'
-    if c['op'] == 'bayer_seq':
-        return f'bayer_seq/{len(c["calls"])}calls'
+    if c['op'] in SEQ_OPS:
+        return f'{c["op"]}/{len(c["calls"])}calls'
     return c['op']
 
 
@@ -356,6 +516,10 @@ def nontrivial(c):
         return len(c['pattern']) > 1 or c['os'] > 1
     if c['op'] == 'bayer_seq':
         return len({(x['pattern'].upper(), x['os']) for x in c['calls']}) > 1
+    if c['op'] == 'qe_seq':
+        return len({x['unit'] for x in c['calls']}) > 1
+    if c['op'] == 'adc_seq':
+        return len({(x['sat'], x['dtype'], x['warn']) for x in c['calls']}) > 1
     if c['op'] == 'adc':
         return c['gain']['ndim'] != 0 or c['sat'] is not None or any(F(v) < 0 for row in c['img'] for v in row)
     return True
@@ -395,6 +559,14 @@ def encode(c):
                     return None
                 out += e1[1:]
             return out
+        if op in ('qe_seq', 'adc_seq'):       # op 6: every call carries its own tag (= the op code of the single call)
+            out = [6, len(c['calls'])]
+            for sc in sub_cases(c):
+                e1 = encode(sc)
+                if e1 is None:
+                    return None
+                out += e1
+            return out
         if op == 'adc':
             a = np.asarray(c['img'], dtype=object)
             e = [3, a.shape[0], a.shape[1]] + [t for v in a.ravel() for t in C.enc_q(F(v))]
@@ -416,7 +588,7 @@ def read_qarr(rd):
 
 
 def decode(c, ints):
-    if c['op'] == 'bayer_seq':
+    if c['op'] in SEQ_OPS:
         rd = C.Reader(ints, 1)
         assert rd.z() == 0
         out = []
@@ -450,58 +622,131 @@ def canon_arr(a):
     return {'shape': [int(a.shape[0]), int(a.shape[1])], 'vals': [[float(v) for v in row] for row in a.tolist()]}
 
 
+def mk_frame(c):
+    dt = c.get('img_dtype') or ('int64' if c.get('int_img') else 'float64')
+    if dt.startswith('int'):
+        return np.array([[int(F(v)) for v in row] for row in c['img']], dtype=np.dtype(dt))
+    return np.array([[float(F(v)) for v in row] for row in c['img']], dtype=np.dtype(dt))
+
+
+def mk_gain(g):
+    form = g.get('form')
+    if g['ndim'] == 0:
+        v = F(g['v'])
+        if form == '0d':
+            return np.array(float(v))
+        if form == 'int' and v.denominator == 1:
+            return int(v)
+        return float(v)
+    if g['ndim'] == 1 and len(g['v']) == 0:
+        return [] if form == 'list' else (() if form == 'tuple' else np.zeros((0,)))
+    return as_form(json_map(g['v'], lambda x: float(F(x))), form)
+
+
+def call_collect(D, c, img, wave, qe):
+    try:
+        return canon_arr(D.collect_charge(img, wave, qe, waveunit=c['unit']))
+    except Exception as e:
+        return {'err': type(e).__name__}
+
+
+def call_bayer(D, c, img, wave, qr, qg, qb):
+    try:
+        out = D.collect_charge_bayer(img, wave, qr, qg, qb, c['pattern'], oversample=mk_os(c), waveunit=c['unit'],
+                                     flatten=c['flatten'])
+        if c['flatten']:
+            return canon_arr(out)
+        if len(out) != 3:
+            return {'err': 'NotThreeChannels'}
+        return {'channels': [canon_arr(x) for x in out]}
+    except Exception as e:
+        return {'err': type(e).__name__}
+
+
+def call_adc(D, c, img, gain):
+    before = img.copy()
+    try:
+        sat = None
+        if c['sat'] is not None:
+            sat = int(F(c['sat'])) if F(c['sat']).denominator == 1 else float(F(c['sat']))
+            if c.get('sat_form') == 'np':
+                sat = np.int64(sat) if isinstance(sat, int) else np.float64(sat)
+        kw = {}
+        if c['dtype'] is not None:
+            form = c.get('dtype_form')
+            kw['dtype'] = c['dtype'] if form == 'str' else (np.dtype(c['dtype']).type if form == 'type' else np.dtype(c['dtype']))
+        with warnings.catch_warnings(record=True) as rec:
+            warnings.simplefilter('always')
+            out = D.adc(img, gain, saturation_capacity=sat, warn_saturate=c['warn'], **kw)
+        out = np.asarray(out)
+        return {'warned': any('saturat' in str(w.message).lower() for w in rec),
+                'n_warnings': len(rec),
+                'shape': [int(out.shape[0]), int(out.shape[1])],
+                'dn': [[float(v) for v in row] for row in out.tolist()],
+                'dtype': str(out.dtype),
+                'input_unchanged': bool(np.array_equal(img, before)) and img.dtype == before.dtype}
+    except Exception as e:
+        return {'err': type(e).__name__, 'input_unchanged': bool(np.array_equal(img, before))}
+
+
+def spectrum_state(s):
+    return (np.array(s.wave, dtype=float).copy(), np.array(s.value, dtype=float).copy(), s.waveunit, s.valueunit)
+
+
+def spectrum_changes(s, st0):
+    """None if the spectrum is exactly as it was, else a description of what changed"""
+    w, v, wu, vu = spectrum_state(s)
+    out = []
+    if wu != st0[2] or vu != st0[3]:
+        out.append(f'units {st0[2]}/{st0[3]} -> {wu}/{vu}')
+    if w.shape != st0[0].shape or not np.array_equal(w, st0[0]):
+        k = int(np.argmax(w != st0[0])) if w.shape == st0[0].shape else -1
+        out.append(f'wavelength grid changed (sample {k}: {st0[0][k]!r} -> {w[k]!r})' if k >= 0 else 'wavelength grid resized')
+    if v.shape != st0[1].shape or not np.array_equal(v, st0[1]):
+        out.append('values changed')
+    return '; '.join(out) or None
+
+
 def run_impl(c):
     lentil = C.import_lentil()
     D = lentil.detector
     op = c['op']
     if op == 'bayer_seq':        # the calls of the sequence, in order, in this process
         return {'seq': [run_impl(sc) for sc in sub_cases(c)]}
-    try:
-        if op == 'collect':
-            img = np_img(c['img'])
-            wave = np.array([to_unit(w, c['unit']) for w in c['wave']])
-            return canon_arr(D.collect_charge(img, wave, qe_impl(c['qe']), waveunit=c['unit']))
-        if op == 'bayer':
-            img = np_img(c['img'])
-            wave = np.array([to_unit(w, c['unit']) for w in c['wave']])
-            out = D.collect_charge_bayer(img, wave, qe_impl(c['qr']), qe_impl(c['qg']), qe_impl(c['qb']),
-                                         c['pattern'], oversample=c['os'], waveunit=c['unit'], flatten=c['flatten'])
-            if c['flatten']:
-                return canon_arr(out)
-            if len(out) != 3:
-                return {'err': 'NotThreeChannels'}
-            return {'channels': [canon_arr(x) for x in out]}
-        if op == 'adc':
-            if c['int_img']:
-                img = np.array([[int(F(v)) for v in row] for row in c['img']], dtype=np.int64)
+    if op == 'qe_seq':           # one frame and one pool of efficiency objects shared by all calls of the history
+        img = np_img(c['img'], c.get('img_dtype'))
+        pool = [qe_impl(q) for q in c['pool']]
+        states = {k: spectrum_state(o) for k, o in enumerate(pool) if c['pool'][k]['kind'] == 'spectrum'}
+        out = []
+        for call, sc in zip(c['calls'], sub_cases(c)):
+            wave = mk_wave(sc)
+            if call['fn'] == 'collect':
+                res = call_collect(D, sc, img, wave, pool[call['qe']])
             else:
-                img = np.array([[float(F(v)) for v in row] for row in c['img']], dtype=float)
-            before = img.copy()
-            g = c['gain']
-            gain = float(F(g['v'])) if g['ndim'] == 0 else np.array(
-                json_map(g['v'], lambda x: float(F(x))), dtype=float)
-            if g['ndim'] == 1 and len(g['v']) == 0:
-                gain = np.zeros((0,))
-            sat = None if c['sat'] is None else (int(F(c['sat'])) if F(c['sat']).denominator == 1 else float(F(c['sat'])))
-            kw = {}
-            if c['dtype'] is not None:
-                kw['dtype'] = np.dtype(c['dtype'])
-            with warnings.catch_warnings(record=True) as rec:
-                warnings.simplefilter('always')
-                out = D.adc(img, gain, saturation_capacity=sat, warn_saturate=c['warn'], **kw)
-            out = np.asarray(out)
-            return {'warned': any('saturat' in str(w.message).lower() for w in rec),
-                    'n_warnings': len(rec),
-                    'shape': [int(out.shape[0]), int(out.shape[1])],
-                    'dn': [[float(v) for v in row] for row in out.tolist()],
-                    'dtype': str(out.dtype),
-                    'input_unchanged': bool(np.array_equal(img, before)) and img.dtype == before.dtype}
-        if op == 'fmt':
+                res = call_bayer(D, sc, img, wave, pool[call['qr']], pool[call['qg']], pool[call['qb']])
+            ch = [f'efficiency spectrum #{k} ({c["pool"][k]["unit"]}): {m}' for k, st in states.items()
+                  for m in [spectrum_changes(pool[k], st)] if m]
+            res['spectra_changed'] = ch
+            out.append(res)
+        return {'seq': out}
+    if op == 'adc_seq':          # one frame object and one gain object shared by all calls of the history
+        img = mk_frame(c)
+        gain = mk_gain(c['gain'])
+        return {'seq': [call_adc(D, sc, img, gain) for sc in sub_cases(c)]}
+    if op == 'collect':
+        return call_collect(D, c, np_img(c['img'], c.get('img_dtype')), mk_wave(c), qe_impl(c['qe']))
+    if op == 'bayer':
+        return call_bayer(D, c, np_img(c['img'], c.get('img_dtype')), mk_wave(c), qe_impl(c['qr']), qe_impl(c['qg']),
+                          qe_impl(c['qb']))
+    if op == 'adc':
+        return call_adc(D, c, mk_frame(c), mk_gain(c['gain']))
+    if op == 'fmt':
+        try:
             a = D.format_bayer_string(c['pattern'])
             return {'k': int(a.shape[0]), 'codes': [[CODES.get(str(ch), 9) for ch in row] for row in a.tolist()],
                     'square': a.ndim == 2 and a.shape[0] == a.shape[1]}
-    except Exception as e:
-        return {'err': type(e).__name__}
+        except Exception as e:
+            return {'err': type(e).__name__}
     raise ValueError(op)
 
 
@@ -566,7 +811,7 @@ def pinned(c):
 
 def compare(c, impl, model):
     op = c['op']
-    if op == 'bayer_seq':
+    if op in SEQ_OPS:
         for n, (sc, a, b) in enumerate(zip(sub_cases(c), impl['seq'], model['seq'])):
             m = compare(sc, a, b)
             if m:
@@ -678,6 +923,24 @@ def oracle(c, impl):
             if m:
                 return (f'call {n + 1} of {len(c["calls"])} (pattern {sc["pattern"]!r}, oversample {sc["os"]}) after calls '
                         f'{[(x["pattern"], x["os"]) for x in c["calls"][:n]]} on the same frame shape: {m}')
+        return None
+    if op == 'qe_seq':
+        for n, (call, sc, a) in enumerate(zip(c['calls'], sub_cases(c), impl['seq'])):
+            hist = [(x['fn'], x['unit']) for x in c['calls'][:n]]
+            m = oracle(sc, a)
+            if m:
+                return (f'call {n + 1} of {len(c["calls"])} ({call["fn"]}, waveunit {call["unit"]!r}, wavelengths {call["wave"]} nm) '
+                        f'after calls {hist} with the same efficiency objects: {m}')
+            if a.get('spectra_changed'):
+                return (f'call {n + 1} of {len(c["calls"])} ({call["fn"]}, waveunit {call["unit"]!r}) changed its efficiency '
+                        f'argument: {a["spectra_changed"][0]}')
+        return None
+    if op == 'adc_seq':
+        for n, (call, sc, a) in enumerate(zip(c['calls'], sub_cases(c), impl['seq'])):
+            m = oracle(sc, a)
+            if m:
+                return (f'call {n + 1} of {len(c["calls"])} (capacity {call["sat"]}, dtype {call["dtype"]}) after calls '
+                        f'{[(x["sat"], x["dtype"]) for x in c["calls"][:n]]} with the same frame and gain objects: {m}')
         return None
     exact = not has_spectrum(c)
     if op in ('bayer', 'adc') and pinned(c) == 'error':
